@@ -63,8 +63,11 @@ def gen_worlds(seed, n):
             w = simgen.gen_fuzz_world(rng)
         else:
             w = simgen.gen_world(rng, closed_loop=rng.random() < 0.15)
-        if "zero_runtime" in simgen.signature(w):
+        sg = simgen.signature(w)
+        if "zero_runtime" in sg:
             continue           # F8: a zero-runtime strategy livelocks simulate(); exercised in its own stream (C05)
+        if "join_direct_edge_cancelling" in sg:
+            continue           # FTG3: the join reached by a direct edge survives the cancellation of the taken branch (C06 replays it)
         ws.append(w)
     return ws
 
